@@ -4,7 +4,7 @@ use crate::abnf::Prod;
 use crate::ctx::{Case, Ctx};
 use crate::{both_families, fam, gen};
 
-pub const RULE: &str = "cases: component values over every %XX pattern (all 256 single escapes, well-formed 2/3/4-byte characters split over escapes and mixed with literal non-ASCII, lone continuation/lead bytes, truncated sequences, overlong forms, encoded surrogates, octets > F4) and their concatenations x {user info, host, segment, query, fragment} x both families, stand-alone, owned (into_pct_string) and extracted from full references; as_pct_str/Deref, bytes(), chars(), len(), decode(), == str each under catch_unwind, compared with the octet model. Non-trivial = every valid component value; distinct by (kind, text)";
+pub const RULE: &str = "cases: component values over every %XX pattern (all 256 single escapes, well-formed 2/3/4-byte characters split over escapes and mixed with literal non-ASCII, lone continuation/lead bytes, truncated sequences, overlong forms, encoded surrogates, octets > F4) and their concatenations x {user info, host, segment, query, fragment} x both families, stand-alone, owned (into_pct_string) and extracted from full references; as_pct_str/Deref, bytes(), chars(), len(), decode(), == str each under catch_unwind, compared with the octet model. The embedded pass compares the accessor's view (and its presence) with the RFC split of the enclosing reference. Panics are attributed to their site (pct-str dependency vs the library's own code). Non-trivial = every valid component value; distinct by (kind, text)";
 
 pub const MANDATORY: &[&str] = &["type:UserInfo", "type:Host", "type:Segment", "type:Query", "type:Fragment", "octets:utf8", "octets:ill-formed", "via:standalone", "via:embedded"];
 
